@@ -156,6 +156,25 @@ def correspond(ctx):
                 realz = ["err", core.err_name(e)]
         lines.append(f"(facts {decls} " + " ".join(cs) + ")")
         meta.append(("facts", cs, decls, keyflags, (real, realz), list(s.is_answer_key)))
+        # "the same whether the backend computes such facts itself or cspuz derives them by re-solving": the same program through
+        # the text-protocol backends -- plain `sugar` (cspuz's own refinement loop over an external answer finder) and one
+        # backend with native deduction -- each talking to a reference solver of the Sugar protocol written from its documentation
+        if ctx.rng.random() < ctx.n(0.25, 0.5) and all(v.id == k for k, v in enumerate(s.variables)):
+            from . import c03
+            for name in ("sugar", ctx.rng.choice(["sugar_extended", "csugar", "enigma_csp", "cspuz_core"])):
+                try:
+                    bad = c03._e2e(ctx.rng, list(s.variables), list(s.constraints), list(s.is_answer_key), name)
+                except Exception as e:
+                    bad = None
+                    ctx.count("sugar-route:skipped:" + core.err_name(e))
+                ctx.count("sugar-route:" + name)
+                if bad:
+                    ctx.disagree("sugar-route:" + bad[0], backend=name, what=bad[1], constraints=cs, decls=decls, keys=keyflags)
+                    if not hasattr(ctx, "concrete"):
+                        ctx.concrete = []
+                    ctx.concrete.append(Finding("solve:" + name + ":" + bad[0], bad[1] + f" -- decls={decls} keys={keyflags} constraints={cs}",
+                                                {"decls": [exprio.pdecl(v) for v in s.variables], "keys": list(s.is_answer_key),
+                                                 "constraints": cs, "backend": name, "sugar_route": True}))
         # the answer must not depend on what earlier queries on the SAME unchanged Solver left behind (in the Solver, in the
         # variables or in a backend object): ask again, with find_answer() or a key promotion in between
         for rep in range(2):
@@ -268,6 +287,11 @@ def replay(ctx, data):
     """Re-run the stored program under three histories: fresh Solver; find_answer() first; solve() with only the first key, then
     the remaining keys added."""
     import warnings
+    if data.get("sugar_route"):
+        from . import c03
+        s = exprio.build_session(data["decls"], data["constraints"], list(data["keys"]))
+        bad = c03._e2e(ctx.rng, list(s.variables), list(s.constraints), list(s.is_answer_key), data["backend"])
+        return Finding("solve:replay", bad[1], data) if bad else None
     for variant in ("fresh", "find_answer", "two-phase", "solve-twice"):
         keys = list(data["keys"])
         first = [i for i, k in enumerate(keys) if k][:1]
